@@ -244,14 +244,21 @@ pub struct MonWriter {
     pub buf: Vec<u8>,
     pub pos: u64,
     pub ctl: Rc<Ctl>,
+    /// end of the highest byte range written so far (the sink may hold more: old content)
+    pub high: u64,
 }
 
 impl MonWriter {
     pub fn new(ctl: Rc<Ctl>) -> Self {
-        MonWriter { buf: Vec::new(), pos: 0, ctl }
+        MonWriter { buf: Vec::new(), pos: 0, ctl, high: 0 }
     }
     pub fn plain() -> Self {
-        MonWriter { buf: Vec::new(), pos: 0, ctl: Ctl::new() }
+        MonWriter { buf: Vec::new(), pos: 0, ctl: Ctl::new(), high: 0 }
+    }
+    /// a sink that already holds `old` (a file opened for writing without truncation, a
+    /// reused buffer); writing starts at position 0
+    pub fn prefilled(old: Vec<u8>) -> Self {
+        MonWriter { buf: old, pos: 0, ctl: Ctl::new(), high: 0 }
     }
 }
 
@@ -270,6 +277,9 @@ impl Write for MonWriter {
         self.buf[pos..pos + overlap].copy_from_slice(&data[..overlap]);
         self.buf.extend_from_slice(&data[overlap..n]);
         self.pos += n as u64;
+        if n > 0 {
+            self.high = self.high.max(self.pos);
+        }
         self.ctl.account(n)?;
         Ok(n)
     }
@@ -319,6 +329,9 @@ pub struct SparseStream {
     pub lit_max: usize,
     pub writes: u64,
     pub bad_payload: Option<String>,
+    /// > 0: a write of at most 64 bytes (header fields, size patches) is accepted only up to
+    /// this many bytes - a legal short write; bulk payload writes are taken whole
+    pub short_small_writes: usize,
 }
 
 pub const SYN_MAGIC: u32 = 0x5359_4E21; // "SYN!"
@@ -383,6 +396,7 @@ impl SparseStream {
             lit_max: 1 << 16,
             writes: 0,
             bad_payload: None,
+            short_small_writes: 0,
         }
     }
 
@@ -526,6 +540,7 @@ impl Write for SparseStream {
     fn write(&mut self, data: &[u8]) -> io::Result<usize> {
         self.writes += 1;
         let start = self.pos;
+        let data = if self.short_small_writes > 0 && data.len() <= 64 && data.len() > self.short_small_writes { &data[..self.short_small_writes] } else { data };
         if data.len() <= self.lit_max {
             // try to append to the previous literal extent to keep the extent list short
             if start == self.len {
